@@ -90,6 +90,11 @@ type GenOptions struct {
 	Long int
 	// LongNoWallet: the long chain is mined and announced BEFORE the first wallet exists
 	LongNoWallet bool
+	// TailNewAddr (C18): NewAddress calls that make a stale in-memory key counter observable — one for
+	// the restored wallet right after its import has finished (3 histories in 4), and one for every
+	// wallet the manager knows at the end of the history (the last operations before the final
+	// announcement), so that every operation on a wallet is followed by a NewAddress of that wallet
+	TailNewAddr bool
 }
 
 // ---------------------------------------------------------------- deterministic entropy
@@ -357,6 +362,15 @@ func Generate(seed uint64, n int, opt GenOptions) (*Script, error) {
 			g.add(Op{Kind: OpWait})
 			g.add(Op{Kind: OpQuery})
 			s.Stats.Imports++
+			if opt.TailNewAddr && r.Chance(75) {
+				for _, wi := range h.Wallets {
+					if wi.Num == num {
+						if err := g.newAddr(wi, 0); err != nil {
+							return nil, err
+						}
+					}
+				}
+			}
 			continue
 		}
 		if !removed && st >= removeAt && len(g.present()) >= 2 {
@@ -453,6 +467,13 @@ func Generate(seed uint64, n int, opt GenOptions) (*Script, error) {
 			}
 		default:
 			g.add(Op{Kind: OpQuery})
+		}
+	}
+	if opt.TailNewAddr {
+		for _, wi := range g.present() {
+			if err := g.newAddr(wi, 0); err != nil {
+				return nil, err
+			}
 		}
 	}
 	for _, q := range queue {
